@@ -36,6 +36,7 @@ type messageInfo struct {
 	flags        string
 	internalDate time.Time
 	seqNum       int
+	db           *sql.DB // database the message was listed from (user or role mailbox)
 }
 
 func HandleSearch(deps ServerDeps, conn net.Conn, tag string, parts []string, state *models.ClientState) {
@@ -113,6 +114,7 @@ func HandleSearch(deps ServerDeps, conn net.Conn, tag string, parts []string, st
 		if internalDate.Valid {
 			msg.internalDate = internalDate.Time
 		}
+		msg.db = targetDB
 		messages = append(messages, msg)
 	}
 
@@ -522,9 +524,10 @@ func matchesUIDSet(uid int, set string) bool {
 }
 
 func matchesHeaderOrBody(msg messageInfo, field string, searchStr string, charset string, userID int64, deps ServerDeps) bool {
-	// Get user database
-	userDB, err := deps.GetUserDB(userID)
-	if err != nil {
+	// Use the database the message was listed from; for a role mailbox this
+	// is the role store, which GetUserDB(userID) with userID 0 is not
+	userDB := msg.db
+	if userDB == nil {
 		return false
 	}
 
@@ -571,9 +574,10 @@ func matchesHeaderOrBody(msg messageInfo, field string, searchStr string, charse
 }
 
 func matchesHeader(msg messageInfo, fieldName string, searchStr string, charset string, userID int64, deps ServerDeps) bool {
-	// Get user database
-	userDB, err := deps.GetUserDB(userID)
-	if err != nil {
+	// Use the database the message was listed from; for a role mailbox this
+	// is the role store, which GetUserDB(userID) with userID 0 is not
+	userDB := msg.db
+	if userDB == nil {
 		return false
 	}
 
@@ -649,9 +653,10 @@ func headerContains(rawMsg string, fieldName string, searchStr string) bool {
 }
 
 func matchesSize(msg messageInfo, size int, larger bool, userID int64, deps ServerDeps) bool {
-	// Get user database
-	userDB, err := deps.GetUserDB(userID)
-	if err != nil {
+	// Use the database the message was listed from; for a role mailbox this
+	// is the role store, which GetUserDB(userID) with userID 0 is not
+	userDB := msg.db
+	if userDB == nil {
 		return false
 	}
 
@@ -695,9 +700,10 @@ func matchesDate(internalDate time.Time, dateStr string, comparison string) bool
 }
 
 func matchesSentDate(msg messageInfo, dateStr string, comparison string, userID int64, deps ServerDeps) bool {
-	// Get user database
-	userDB, err := deps.GetUserDB(userID)
-	if err != nil {
+	// Use the database the message was listed from; for a role mailbox this
+	// is the role store, which GetUserDB(userID) with userID 0 is not
+	userDB := msg.db
+	if userDB == nil {
 		return false
 	}
 
